@@ -7,7 +7,7 @@ package decimal
 func H_C01_mul() {
 	wx, wy, p := vCfg("wx"), vCfg("wy"), vCfg("p")
 	alias := vCfgOr("alias", 0)
-	px, py := 0, 0
+	px, py := vCfgOr("px", 0), vCfgOr("py", 0)
 	if alias == 1 {
 		px = p
 	}
@@ -20,6 +20,10 @@ func H_C01_mul() {
 		y = vDec("y", fFinite, wy, vCfgOr("capx", 0), py)
 	}
 	z := receiver(alias, x, y, p)
+	if vCfgOr("p0", 0) == 1 {
+		z.prec = 0
+		p = maxInt(vCfgOr("px", 0), vCfgOr("py", 0))
+	}
 	mode := z.mode
 	S := sMul(specMant(x), specMant(y))
 	e0 := int64(x.exp) - int64(wx*_DW) + int64(y.exp) - int64(wy*_DW)
